@@ -13,8 +13,8 @@ LEVEL = 'model_checking'
 RULE = ('every set of up to 3 saved recordings over 11 recording kinds (categories Op / OpX / Op_X / B that are prefixes of one another or '
         'contain underscores; metadata absent / {m:1} / {m:2,s:ab}; incomplete flag absent / False / True / None) x every query (5 '
         'categories x 9 filters x limits None/1/2/5 x ordered/random through iter_recording_ids, and the studio lookup with and without '
-        'skip-incomplete) on 9 cassette configurations (memory; file with sorted and reversed directory listing; S3 with key prefix '
-        "'', 'p', 'pp' in one shared fake bucket holding foreign recordings; read-only S3 view). states = distinct saved sets. "
+        'skip-incomplete) on 10 cassette configurations (memory; file with sorted and reversed directory listing and in a directory whose name contains pattern metacharacters; S3 with key prefix '
+        "'', 'p', 'pp', 'run_metadata', 'fullish/x' in one shared fake bucket holding foreign recordings; read-only S3 view). states = distinct saved sets. "
         'Non-trivial = query whose reference answer is a proper, non-empty subset of the saved recordings.')
 ASSUMPTIONS = ['limit=0 is outside the domain (degenerate)', 'listing ORDER is not part of the claim, only the set / the size under a limit',
                'reference matcher = the C14 reference', 'S3 on an in-memory fake bucket listing in lexicographic key order']
@@ -26,7 +26,7 @@ CATS = ['Op', 'OpX', 'Op_X', 'B', 'Zz']
 FILTERS = [None, {'m': 1}, {'m': [1, 2]}, {'s': 'a*'}, {'m': {'operator': '>', 'value': 1}}, {'absent_key': None}, {'absent_key': 1},
            {INC: [False, None]}, {'s': [['zz', None], 'q']}]
 LIMITS = [None, 1, 2, 5]
-CONFIGS = [('mem', None), ('file', 'sorted'), ('file', 'reversed'), ('s3', ''), ('s3', 'p'), ('s3', 'pp'), ('s3-ro', 'p'), ('s3', 'run_metadata'), ('s3', 'fullish/x')]
+CONFIGS = [('mem', None), ('file', 'sorted'), ('file', 'reversed'), ('s3', ''), ('s3', 'p'), ('s3', 'pp'), ('s3-ro', 'p'), ('s3', 'run_metadata'), ('s3', 'fullish/x'), ('file', 'odd-dir')]
 
 
 def bounds(tier):
@@ -52,9 +52,9 @@ def run_case(case):
     box = None
     try:
         if kind == 'file':
-            box = cassettes.Box('file')
+            box = cassettes.Box('file', subdir='rec[v1] {0}%s *?') if opt == 'odd-dir' else cassettes.Box('file')
             import playback.tape_cassettes.file_based.file_based_tape_cassette as FB
-            order = (lambda d: sorted(real_listdir(d))) if opt == 'sorted' else (lambda d: sorted(real_listdir(d), reverse=True))
+            order = (lambda d: sorted(real_listdir(d))) if opt in ('sorted', 'odd-dir') else (lambda d: sorted(real_listdir(d), reverse=True))
 
             class _Os(object):
                 def __getattr__(self, n):
